@@ -1,4 +1,4 @@
-import CardVerif.Spec.GinRules
+import CardModel.Spec.GinRules
 import Mathlib.Data.List.Perm.Basic
 import Mathlib.Data.List.Nodup
 import Mathlib.Tactic.Linarith
